@@ -97,16 +97,15 @@ Qed.
 (* ---------- comparison tests of Min / Max ---------------------------------------------------------- *)
 (* does the if / elif chain reject, given include_boundary and the three-way comparison value ? bound
    (None: unordered, i.e. NaN)? *)
-Fixpoint tests_reject (tests : list (cmpop * bool)) (incl : bool) (c : option comparison) : bool :=
+Fixpoint tests_reject (tests : list btest) (incl : bool) (c : option comparison) : bool :=
   match tests with
   | [] => false
-  | t :: ts => (cmp_holds (fst t) c && Bool.eqb incl (snd t)) || tests_reject ts incl c
+  | t :: ts => (xorb (cmp_holds (bt_op t) c) (bt_neg t) && Bool.eqb incl (bt_pol t)) || tests_reject ts incl c
   end.
 
 Definition all_cmp : list (option comparison) := [None; Some Lt; Some Eq; Some Gt].
-(* the chain rejects exactly like the reference, on ordered outcomes; on the unordered one (NaN) it is
-   only asked to behave like the reference as well, so that the refuted theorems speak about it *)
-Definition tests_equiv (tests : list (cmpop * bool)) (ref : bool -> option comparison -> bool) : bool :=
+(* the chain rejects exactly like the reference on the three ordered outcomes and on the unordered one (NaN) *)
+Definition tests_equiv (tests : list btest) (ref : bool -> option comparison -> bool) : bool :=
   forallb (fun incl => forallb (fun c => Bool.eqb (tests_reject tests incl c) (ref incl c)) all_cmp) [true; false].
 
 Lemma tests_equiv_sound : forall tests ref, tests_equiv tests ref = true ->
@@ -117,13 +116,18 @@ Proof.
   destruct incl, c as [[]|]; apply eqb_prop; assumption.
 Qed.
 
+(* on numbers no comparison raises, so the order of the operands of `and` does not matter *)
 Lemma bound_tests_sem : forall VE tests b incl v x y,
   num_view v = Some x -> num_view b = Some y ->
   bound_tests VE tests b incl v = if tests_reject tests incl (xcmp x y) then Raise VE else Ok v.
 Proof.
   intros VE tests b incl v x y Vx Vy. induction tests as [|t ts IH]; simpl; [reflexivity|].
   unfold py_cmp. rewrite Vx, Vy.
-  destruct (cmp_holds (fst t) (xcmp x y) && Bool.eqb incl (snd t)); simpl; [reflexivity | exact IH].
+  destruct (bt_flag_first t); simpl.
+  - destruct (Bool.eqb incl (bt_pol t)); simpl.
+    + destruct (xorb (cmp_holds (bt_op t) (xcmp x y)) (bt_neg t)); simpl; [reflexivity | exact IH].
+    + rewrite andb_false_r. exact IH.
+  - destruct (xorb (cmp_holds (bt_op t) (xcmp x y)) (bt_neg t) && Bool.eqb incl (bt_pol t)); simpl; [reflexivity | exact IH].
 Qed.
 
 (* ---------- handler tables ---------------------------------------------------------------------------- *)
@@ -206,17 +210,18 @@ Definition shapes_good (S : shapes) : bool :=
   negb (co_threads (s_composite S)) && co_returns_input (s_composite S) &&
   domkind_eqb (fe_dom (s_foreach S)) DomIterable && fe_threads (s_foreach S) && negb (fe_return_in_loop (s_foreach S)) &&
   htable_good is_rv [ValueErrorC] (s_h_is_uuid S) &&
-  htable_good is_rv [ValueErrorC; TypeErrorC] (s_h_is_enum S) &&
+  htable_good is_rv [ValueErrorC; TypeErrorC] (s_h_is_enum S) && s_enum_float_guard S &&
   htable_good is_rv [TypeErrorC; ValueErrorC] (s_h_iso S) &&
   domkind_eqb (s_unix_dom S) DomIntFloatStr &&
-  htable_good is_rv [ValueErrorC] (s_h_unix_float S) &&
+  htable_good is_rv [ValueErrorC; OverflowErrorC] (s_h_unix_float S) &&
   htable_good is_rv [OverflowErrorC; ValueErrorC] (s_h_unix_add S) &&
   matchmode_eqb (s_email_mode S) MFull && (re_eqb (s_regex_email S) email_re || re_eqb (s_regex_email S) email_re_noend) &&
   matchmode_eqb (s_matchpattern_mode S) MSearch &&
   list_eqb normop_eqb (s_cv_norm S) [NStr; NStrip; NLower] &&
   str_list_eqb (s_cv_true S) [S_true; [49]] && str_list_eqb (s_cv_false S) [S_false; [48]] &&
   exn_eqb (s_cv_bool_else S) ConversionErrorC &&
-  htable_good (is_raise ConversionErrorC) [ValueErrorC] (s_h_convert S).
+  htable_good (is_raise ConversionErrorC) [ValueErrorC] (s_h_convert S) &&
+  htable_good (is_raise ConversionErrorC) [ValueErrorC] (s_h_convert_norm S).
 
 Record good_props (S : shapes) : Prop := {
   g_vexc : s_vexc S = ValidatorExceptionC;
@@ -237,9 +242,10 @@ Record good_props (S : shapes) : Prop := {
   g_fe_ret : fe_return_in_loop (s_foreach S) = false;
   g_uuid : htable_good is_rv [ValueErrorC] (s_h_is_uuid S) = true;
   g_enum : htable_good is_rv [ValueErrorC; TypeErrorC] (s_h_is_enum S) = true;
+  g_enum_guard : s_enum_float_guard S = true;
   g_iso : htable_good is_rv [TypeErrorC; ValueErrorC] (s_h_iso S) = true;
   g_unix_dom : s_unix_dom S = DomIntFloatStr;
-  g_unix_float : htable_good is_rv [ValueErrorC] (s_h_unix_float S) = true;
+  g_unix_float : htable_good is_rv [ValueErrorC; OverflowErrorC] (s_h_unix_float S) = true;
   g_unix_add : htable_good is_rv [OverflowErrorC; ValueErrorC] (s_h_unix_add S) = true;
   g_email_mode : s_email_mode S = MFull;
   g_email_re : forall s, re_fullmatch (s_regex_email S) s = email_predb s;
@@ -248,7 +254,8 @@ Record good_props (S : shapes) : Prop := {
   g_true : s_cv_true S = [S_true; [49]];
   g_false : s_cv_false S = [S_false; [48]];
   g_bool_else : s_cv_bool_else S = ConversionErrorC;
-  g_convert : htable_good (is_raise ConversionErrorC) [ValueErrorC] (s_h_convert S) = true
+  g_convert : htable_good (is_raise ConversionErrorC) [ValueErrorC] (s_h_convert S) = true;
+  g_convert_norm : htable_good (is_raise ConversionErrorC) [ValueErrorC] (s_h_convert_norm S) = true
 }.
 
 Lemma shapes_good_props : forall S, shapes_good S = true -> good_props S.
